@@ -8,6 +8,7 @@
 #include <cstdlib>
 #include <csignal>
 #include <unistd.h>
+#include <sys/time.h>
 #include <chrono>
 #include <sstream>
 
@@ -55,8 +56,8 @@ int main(int argc, char** argv) {
 		return 0;
 	}
 	if (cmd == "replay") {
-		std::signal(SIGALRM, +[](int) { static const char msg[] = "HANG: the replayed run did not finish (loop inside the library)\n"; ssize_t r = write(1, msg, sizeof msg - 1); (void) r; _exit(79); });
-		alarm(120);
+		std::signal(SIGPROF, +[](int) { static const char msg[] = "HANG: the replayed run did not finish (loop inside the library)\n"; ssize_t r = write(1, msg, sizeof msg - 1); (void) r; _exit(79); });
+		{ struct itimerval tv; tv.it_interval.tv_sec = 0; tv.it_interval.tv_usec = 0; tv.it_value.tv_sec = 120; tv.it_value.tv_usec = 0; setitimer(ITIMER_PROF, &tv, nullptr); }
 		return argc >= 3 ? cmdReplay(argv[2]) : 2;
 	}
 
@@ -104,14 +105,15 @@ int main(int argc, char** argv) {
 	int exitCode = 0;
 	std::map<std::string, int> reported;
 	const unsigned watchdog = unsigned(std::atoi(arg(argc, argv, "--watchdog", "40").c_str()));
-	std::signal(SIGALRM, +[](int) { static const char msg[] = "HANG: the current run did not finish (loop inside the library)\n"; ssize_t r = write(1, msg, sizeof msg - 1); (void) r; _exit(79); });
+	std::signal(SIGPROF, +[](int) { static const char msg[] = "HANG: the current run did not finish (loop inside the library)\n"; ssize_t r = write(1, msg, sizeof msg - 1); (void) r; _exit(79); });
 	for (long k = start; k < count; k += stride) {
 		if (budget > 0 && std::chrono::duration<double>(std::chrono::steady_clock::now() - t0).count() > budget) break;
 		const auto& combo = combos[size_t(k) % combos.size()];
 		const uint64_t runSeed = mix64(mix64(seed, uint64_t(k)), std::hash<std::string>()(combo.first + "/" + combo.second));
 		std::printf("START k=%ld seed=%llu combo=%s/%s\n", k, (unsigned long long) runSeed, combo.first.c_str(), combo.second.c_str());
 		std::fflush(stdout);
-		alarm(watchdog);     // a run takes milliseconds; one that is still going after this long sits in a loop inside the library (never reached on a tree where the checks pass)
+		{ struct itimerval tv; tv.it_interval.tv_sec = 0; tv.it_interval.tv_usec = 0; tv.it_value.tv_sec = long(watchdog); tv.it_value.tv_usec = 0; setitimer(ITIMER_PROF, &tv, nullptr); }
+		// (CPU time of this process, not wall-clock: a run takes milliseconds; one that has burnt this much sits in a loop inside the library. A stalled or suspended machine does not trip it.)
 		RunPlan p = generate(runSeed, lens, combo.first, combo.second, avoid, opt);
 		RunResult r = execute(p, &cov);
 		++done;
@@ -150,7 +152,7 @@ int main(int argc, char** argv) {
 			found.push(f);
 		}
 	}
-	alarm(0);
+	{ struct itimerval tv; tv.it_interval.tv_sec = 0; tv.it_interval.tv_usec = 0; tv.it_value.tv_sec = 0; tv.it_value.tv_usec = 0; setitimer(ITIMER_PROF, &tv, nullptr); }
 	const double wall = std::chrono::duration<double>(std::chrono::steady_clock::now() - t0).count();
 	js::Value sum = js::Value::object();
 	sum.set("lens", lens); sum.set("seed", (unsigned long long) seed); sum.set("runs", done); sum.set("wall_s", wall); sum.set("nondeterministic", nondet); sum.set("tainted_runs", tainted);
